@@ -428,3 +428,18 @@ Proof.
   intros E. apply (decode_encode i2p0 buf0) in E.
   eapply decode_extended; [discriminate | exact E].
 Qed.
+
+(* "any altered stream is rejected" cannot hold for this (or any such) format: here the reference
+   of the third "abcd" is re-pointed from the second copy (offset 2) to the first (offset 7); the
+   stream differs from the encoder's output in one byte, decodes to the same data, carries the
+   same hash, and is accepted. *)
+Definition ex_data : list N := [97;98;99;100;88;97;98;99;100;89;97;98;99;100].
+Definition ex_altered : list N :=
+  [77;73;82;161;97;98;99;100;88;133;33;89;135;0;39;47;38;70;151;75;151;128].
+
+Lemma altered_same_data :
+  exists s, encode ex_data = Some s /\ ex_altered <> s /\ length ex_altered = length s
+            /\ decode true (fun _ => 0) (fun _ => 0) ex_altered = Accept ex_data.
+Proof.
+  eexists. split; [vm_compute; reflexivity|]. split; [discriminate|]. split; vm_compute; reflexivity.
+Qed.
